@@ -1680,6 +1680,22 @@ def c18_families(tier, seed, ids=None):
                     items = [assign("nv", I(100)), assign("fna", inner), call("fna", I(5)), assign("nv", I(200)), call("fna", I(6)), call("deep", I(150)) if False else N("nv")]
                     nf.append(mk(ids, items, {"nested-frames": [depth, level, how, list(pads)]}))
     out.append(("which frame a name lives in: nesting depth x declaring level x frame widths", nf, ("value", "residue")))
+    # a closure that left its generator by yield and was handed on by the consumer (returned, stored) keeps its captured variables when the
+    # generator's context is reused by later loops of the same statement: the family is shared with C10, plus wide and several captured variables
+    cg = [f for f in c10_families(tier, seed, Ids(9500000)) if f[0].startswith("a value captured by a closure that left its generator")]
+    yk = list(cg[0][1])
+    ids2 = Ids(9600000)
+    for width in (1, 3, 130):
+        pads = [assign("pw" + "".join(chr(97 + int(c)) for c in str(i)), I(i)) for i in range(width - 1)]
+        gen = assign("wgen", fn(["a"], block(pads + [assign("secret", bin_("+", N("a"), I(40))), y(fn([], bin_("+", N("secret"), N("a")))), assign("secret", I(0))])))
+        pick = assign("wpick", fn(["a"], block([fr(["g"], [call("wgen", N("a"))], ret(N("g"))), I(0)])))
+        for later in ("loop", "nested-loops", "generator-loop"):
+            after = {"loop": [fr(["i"], [call("elems", lst([I(7), I(8), I(9)]))], assign("s", N("i")))],
+                     "nested-loops": [fr(["i"], [call("fromto", I(0), I(2))], fr(["w"], [call("fromto", I(5), I(7))], assign("s", bin_("+", N("i"), N("w")))))],
+                     "generator-loop": [fr(["i"], [call("wgen", I(9))], assign("s", I(1)))]}[later]
+            body = [assign("k", call("wpick", I(1))), assign("ra", call("k"))] + after + [assign("rb", call("k"))] + after + [lst([N("ra"), N("rb"), call("k")])]
+            yk.append(mk(ids2, [gen, pick, assign("wmain", fn([], block(body))), call("wmain"), call("wmain"), block(body)], {"yielded-returned": [width, later]}))
+    out.append(("closures that left their generator by yield and were handed on by the consumer, across reused iterator contexts", yk, ("value", "residue")))
     return out
 
 
